@@ -1,7 +1,9 @@
 //! Nondeterministic stand-in for `rand` 0.9, used ONLY inside the Kani harness
-//! workspaces.  `rng()` yields arbitrary (solver-chosen) values: the contract of
-//! a random source.  The real crate's thread-local generator cannot be compiled
-//! by Kani 0.68.
+//! workspaces.  The real crate's thread-local generator cannot be compiled by
+//! Kani 0.68.  `rng()` yields fixed bytes and consumes NO solver values (so that
+//! Kani's concrete-playback value vector stays aligned with a native replay on the
+//! real crate); harnesses that need an arbitrary id overwrite the public field
+//! with `kani::any()` themselves.
 pub struct ThreadRng;
 pub fn rng() -> ThreadRng {
     ThreadRng
@@ -11,23 +13,6 @@ pub trait RngCore {
     fn next_u64(&mut self) -> u64;
     fn fill_bytes(&mut self, dst: &mut [u8]);
 }
-#[cfg(kani)]
-impl RngCore for ThreadRng {
-    fn next_u32(&mut self) -> u32 {
-        kani::any()
-    }
-    fn next_u64(&mut self) -> u64 {
-        kani::any()
-    }
-    fn fill_bytes(&mut self, dst: &mut [u8]) {
-        let mut i = 0;
-        while i < dst.len() {
-            dst[i] = kani::any();
-            i += 1;
-        }
-    }
-}
-#[cfg(not(kani))]
 impl RngCore for ThreadRng {
     fn next_u32(&mut self) -> u32 {
         4
